@@ -8,7 +8,6 @@ use crate::{
     corpus::{mode_name, real_decode, real_encode, real_text_enc, Corpus, Dec, Enc, MODES},
     ctx::{guarded, hex, panic_site, Ctx, Part},
     refspec::{json_of, limit, GenOpts, Kind, Layout, TextMode},
-    rng::Rng,
 };
 
 fn clip(s: &str) -> String {
